@@ -15,7 +15,7 @@ def run(ctx):
     jobs = []
     cfgs = (0, 2, 4, 5) if ctx.quick() else (0, 1, 2, 3, 4, 5)
     for c in cfgs:
-        for a in range(6):
+        for a in (range(6) if (c == 0 or not ctx.quick()) else (0, 1, 3)):      # quick: all six ways of reaching under the built-in exclusions, file / parent / root-relative under the others
             jobs.append(Job("c11.py", "h_check", {"cfg": c, "arg": a, "quiet_fixed": ctx.quick()}, T, 60, tag=f"check cfg{c} reached-as#{a}", meta={"sigtag": "check-vs-scan", "tolerant": True, "twin": c == 0 and a == 0}))
     jobs.append(Job("c03.py", "h_decode", {}, T, 30, tag="decoding: bytes<=3"))
     jobs.append(Job("c11.py", "h_check_real", {"cfg": 0}, T, 60, tag="real pipeline on both sides: 9 sample files (markers, comments, Latin-1, BOM, coding cookie) x 6 ways of reaching", meta={"sigtag": "check-vs-scan:real"}))
